@@ -411,6 +411,26 @@ func ext۰reflect۰Append(fr *frame, args []value) value {
 	return makeReflectValue(st, out)
 }
 
+// reflect.StructOf([]StructField) Type
+func ext۰reflect۰StructOf(fr *frame, args []value) value {
+	var fields []*types.Var
+	var tags []string
+	for _, f := range args[0].([]value) {
+		sf := f.(structure)
+		name, _ := sf[0].(string)
+		pkgPath, _ := sf[1].(string)
+		var pkg *types.Package
+		if pkgPath != "" {
+			pkg = fr.i.eng.pkg.Pkg
+		}
+		anon, _ := sf[6].(bool)
+		fields = append(fields, types.NewField(token.NoPos, pkg, name, typeArg(sf[2]), anon))
+		tag, _ := sf[3].(string)
+		tags = append(tags, tag)
+	}
+	return makeReflectType(rtype{types.NewStruct(fields, tags)})
+}
+
 func ext۰reflect۰MakeSlice(fr *frame, args []value) value {
 	t := typeArg(args[0])
 	n, c := args[1].(int), args[2].(int)
